@@ -169,6 +169,37 @@ pub fn lex_stage(events: &[Event]) -> Option<&StageSnapshot> {
     stages(events).into_iter().find(|s| s.stage == "lex")
 }
 
+pub fn has_step(events: &[Event], name: &str) -> bool {
+    events.iter().any(|e| matches!(e, Event::Step(n, _, _) if *n == name))
+}
+
+pub fn step_args<'a>(events: &'a [Event], name: &str) -> Vec<&'a Vec<i64>> {
+    events.iter().filter_map(|e| match e { Event::Step(n, a, _) if *n == name => Some(a), _ => None }).collect()
+}
+
+/// Tokens of logical lines for which the wrapper found no solution (the line and all lines below it).
+pub fn unsolved_tokens(events: &[Event], fin: &StageSnapshot) -> std::collections::HashSet<usize> {
+    let mut bad: std::collections::HashSet<usize> = step_args(events, "wrap_unsolved").iter().map(|a| a[0] as usize).collect();
+    let mut res = std::collections::HashSet::new();
+    if bad.is_empty() {
+        return res;
+    }
+    // lines are ordered so that parents precede children
+    for (li, l) in fin.lines.iter().enumerate() {
+        if let Some((pl, _)) = l.parent {
+            if bad.contains(&pl) {
+                bad.insert(li);
+            }
+        }
+    }
+    for li in &bad {
+        if let Some(l) = fin.lines.get(*li) {
+            res.extend(l.tokens.iter().copied());
+        }
+    }
+    res
+}
+
 /// Where each token of the final table landed in the output.
 #[derive(Debug, Clone)]
 pub struct Span {
@@ -237,6 +268,8 @@ pub fn c08_c09(run: &Run, out: &str, well_formed: bool) -> Vec<Viol> {
     };
     let nl = run.cfg.nl();
     let n = sp.len();
+    let unsolved = unsolved_tokens(&run.events, fin);
+    let site = |i: usize| if unsolved.contains(&i) { " [site: line without a wrapping solution]" } else { "" };
     for i in 0..n {
         let ignored = fin.fmt[i][0] != 0;
         let ws = &out[sp[i].ws_start..sp[i].start];
@@ -258,10 +291,10 @@ pub fn c08_c09(run: &Run, out: &str, well_formed: bool) -> Vec<Viol> {
             }
             Some((breaks, tail)) => {
                 if i == 0 && breaks > 0 && kind != "Eof" {
-                    res.push(Viol { prop: "C08", clause: "leading_blank_line", detail: format!("output starts with {breaks} line break(s)") });
+                    res.push(Viol { prop: "C08", clause: "leading_blank_line", detail: format!("output starts with {breaks} line break(s){}", site(i)) });
                 }
                 if breaks > 2 {
-                    res.push(Viol { prop: "C08", clause: "double_blank_line", detail: format!("token {i} {kind}: {breaks} line breaks before it") });
+                    res.push(Viol { prop: "C08", clause: "double_blank_line", detail: format!("token {i} {kind}: {breaks} line breaks before it{}", site(i)) });
                 }
                 if breaks == 0 && i > 0 {
                     if !(tail.is_empty() || tail == " ") {
